@@ -1,7 +1,17 @@
 /-
   C01 — Wire round-trip preserves every message value.
+
+  * `C01_marshal_total`, `C01_roundtrip`                : proved as stated.
+  * `C01_reference_roundtrip` (as first stated, no size bound) is FALSE in the model (unbounded byte
+    lists): kept as `Remark_reference_roundtrip_unbounded`, refuted by
+    `C01_remark_unbounded_length_prefix` (a `bytes` field of 2^64 bytes); the corrected statement
+    `C01_reference_roundtrip` (encoding shorter than 2^64 bytes) is proved, as is its
+    generalisation to any map-entry order `C01_reference_roundtrip_anyorder`.
+  Proofs: Pulsar/Proofs/Roundtrip.lean and the Rt*.lean files it imports.
 -/
 import Pulsar.Proofs.Roundtrip
+import Pulsar.Proofs.RtCounter
+import Pulsar.Proofs.RtExample
 namespace Pulsar
 
 /-- Encoding never fails or panics for a well-typed message, in either marshal mode, whatever its
@@ -9,7 +19,8 @@ namespace Pulsar
     degenerate states (nil list elements, nil map values, typed-nil oneof wrappers). -/
 theorem C01_marshal_total (S : Schema) (hS : S.WF = true) (fuel i : Nat) (v : Val) (o : MOpts)
     (hperm : ∀ es, (o.perm es).Perm es) (hi : i < S.msgs.length) (hv : msgOK S false fuel i v = true) :
-    ∃ bs, implMarshal S o fuel i v = .ok bs := sorry
+    ∃ bs, implMarshal S o fuel i v = .ok bs :=
+  ⟨_, (marshal_ok hS o (ordOf_perm o hperm) fuel i v hi hv).1⟩
 
 /-- Round trip: for every well-formed schema, every well-typed value whose strings are valid UTF-8 and
     whose unknown sets are storable record sequences, in both marshal modes (any map iteration order):
@@ -22,14 +33,84 @@ theorem C01_roundtrip (S : Schema) (hS : S.WF = true) (fuel i : Nat) (v : Val) (
     (hd : fuel ≤ 10000) :
     ∃ bs w, implMarshal S o fuel i v = .ok bs ∧
       (bs.length < 9223372036854775808 →
-        implUnmarshal S {} i (emptyMsg S i) bs = .ok w ∧ Equiv S fuel i w v) := sorry
+        implUnmarshal S {} i (emptyMsg S i) bs = .ok w ∧ Equiv S fuel i w v) :=
+  impl_roundtrip hS fuel i v o hperm hi hv hu hk hd
+
+/-- The round trip at the level of the specification, for ANY order of the map entries on the wire
+    (`gEncode ord`, with `specEncode = gEncode sortEntries`): the strict reference decoder accepts the
+    bytes — so they are `WellTyped`, the domain of C03 — and yields an equivalent value. -/
+theorem C01_reference_roundtrip_anyorder (S : Schema) (hS : S.WF = true)
+    (ord : Kind → List Val → List Val) (hord : ∀ kk es, (ord kk es).Perm es) (fuel i : Nat) (v : Val)
+    (hi : i < S.msgs.length)
+    (hv : msgOK S false fuel i v = true) (hu : utf8OK S fuel i v = true) (hk : unknownOK S fuel i v = true)
+    (hd : fuel ≤ 10000) (hlen : (gEncode S ord fuel i v).length < 18446744073709551616) :
+    ∃ w, specUnmarshalStrict S {} i (emptyMsg S i) (gEncode S ord fuel i v) = .ok w ∧ Equiv S fuel i w v :=
+  spec_roundtrip_g hS hord fuel i v hi hv hu hk hd hlen
+
+/-- The reference round trip AS ORIGINALLY STATED (no bound on the size of the encoding). It is false in
+    the model, because `Bytes` are unbounded lists: see `C01_remark_unbounded_length_prefix`. -/
+def Remark_reference_roundtrip_unbounded : Prop :=
+  ∀ (S : Schema) (_hS : S.WF = true) (fuel i : Nat) (v : Val) (_hi : i < S.msgs.length)
+    (_hv : msgOK S false fuel i v = true) (_hu : utf8OK S fuel i v = true)
+    (_hk : unknownOK S fuel i v = true) (_hd : fuel ≤ 10000),
+    ∃ w, specUnmarshalStrict S {} i (emptyMsg S i) (specEncode S fuel i v) = .ok w ∧ Equiv S fuel i w v
+
+/-- Counterexample: `message { bytes b = 1; }` holding 2^64 bytes. The length prefix `varint 2^64` is
+    ten bytes whose tenth is 2, which `protowire.ConsumeVarint` rejects (`overflow`). Not reachable in
+    Go (a slice has fewer than 2^63 bytes): a modelling artefact, repaired by the length hypothesis of
+    `C01_reference_roundtrip` (and already present inside `C01_roundtrip`). -/
+theorem C01_remark_unbounded_length_prefix : ¬ Remark_reference_roundtrip_unbounded := by
+  intro h
+  obtain ⟨w, hw, _⟩ := h Counter.cS Counter.cS_wf 1 0 (Counter.cV Counter.big) (by decide)
+    (Counter.cV_ok _) (Counter.cV_utf8 _) (Counter.cV_unknown _) (by omega)
+  rw [Counter.cV_decode _ Counter.big_length] at hw
+  cases hw
 
 /-- The reference decoder reads the reference encoding back as the same value (the specification
-    itself is a round trip), which together with C02 and C03 gives interoperability both ways. -/
+    itself is a round trip), which together with C02 and C03 gives interoperability both ways.
+    Corrected statement: the encoding is shorter than 2^64 bytes. -/
 theorem C01_reference_roundtrip (S : Schema) (hS : S.WF = true) (fuel i : Nat) (v : Val)
     (hi : i < S.msgs.length)
     (hv : msgOK S false fuel i v = true) (hu : utf8OK S fuel i v = true) (hk : unknownOK S fuel i v = true)
-    (hd : fuel ≤ 10000) :
-    ∃ w, specUnmarshalStrict S {} i (emptyMsg S i) (specEncode S fuel i v) = .ok w ∧ Equiv S fuel i w v := sorry
+    (hd : fuel ≤ 10000) (hlen : (specEncode S fuel i v).length < 18446744073709551616) :
+    ∃ w, specUnmarshalStrict S {} i (emptyMsg S i) (specEncode S fuel i v) = .ok w ∧ Equiv S fuel i w v := by
+  rw [specEncode_eq_g] at hlen ⊢
+  exact spec_roundtrip_g hS sortEntries_perm fuel i v hi hv hu hk hd hlen
+
+/-- Consequence: reference encodings (below 2^64 bytes) are `WellTyped` streams. -/
+theorem C01_reference_encoding_wellTyped (S : Schema) (hS : S.WF = true) (fuel i : Nat) (v : Val)
+    (hi : i < S.msgs.length)
+    (hv : msgOK S false fuel i v = true) (hu : utf8OK S fuel i v = true) (hk : unknownOK S fuel i v = true)
+    (hd : fuel ≤ 10000) (hlen : (specEncode S fuel i v).length < 18446744073709551616) :
+    WellTyped S i (specEncode S fuel i v) := by
+  obtain ⟨w, hw, _⟩ := C01_reference_roundtrip S hS fuel i v hi hv hu hk hd hlen
+  simp [WellTyped, hw, Res.isOk]
+
+/-! ### non-vacuity: the hypotheses are satisfiable (schema with every field shape, maps stored out of
+    key order, nested messages, a populated oneof, unknown bytes) -/
+
+open Example in
+example : ∃ bs, implMarshal exS ⟨false, List.reverse⟩ 2 0 exV = .ok bs :=
+  C01_marshal_total exS exS_wf 2 0 exV ⟨false, List.reverse⟩ (fun es => List.reverse_perm es) (by decide) exV_ok
+
+open Example in
+example : ∃ bs w, implMarshal exS ⟨false, List.reverse⟩ 2 0 exV = .ok bs ∧
+    (bs.length < 9223372036854775808 →
+      implUnmarshal exS {} 0 (emptyMsg exS 0) bs = .ok w ∧ Equiv exS 2 0 w exV) :=
+  C01_roundtrip exS exS_wf 2 0 exV ⟨false, List.reverse⟩ (fun es => List.reverse_perm es) (by decide)
+    exV_ok exV_utf8 exV_unknown (by omega)
+
+open Example in
+example : ∃ w, specUnmarshalStrict exS {} 0 (emptyMsg exS 0) (specEncode exS 2 0 exV) = .ok w ∧
+    Equiv exS 2 0 w exV :=
+  C01_reference_roundtrip exS exS_wf 2 0 exV (by decide) exV_ok exV_utf8 exV_unknown (by omega)
+    exV_enc_length
 
 end Pulsar
+
+#print axioms Pulsar.C01_marshal_total
+#print axioms Pulsar.C01_roundtrip
+#print axioms Pulsar.C01_reference_roundtrip_anyorder
+#print axioms Pulsar.C01_remark_unbounded_length_prefix
+#print axioms Pulsar.C01_reference_roundtrip
+#print axioms Pulsar.C01_reference_encoding_wellTyped
